@@ -109,6 +109,10 @@ func (c *Ctx) entScopes(handle func(e []byte)) *entCoverage {
 		}
 		scopes = append(scopes, scope{fmt.Sprintf("E_ham L=%d radius=%d", L, r), func(emit enum.Emit) { enum.Ham(L, r, emit) }})
 		scopes = append(scopes, scope{fmt.Sprintf("E_run L=%d", L), func(emit enum.Emit) { enum.Run(L, emit) }})
+		scopes = append(scopes, scope{fmt.Sprintf("E_byte L=%d", L), func(emit enum.Emit) { enum.Byte(L, emit) }})
+		if c.Thorough && (L == 16 || L == 32) {
+			scopes = append(scopes, scope{fmt.Sprintf("E_bytepair L=%d", L), func(emit enum.Emit) { enum.BytePair(L, emit) }})
+		}
 		maxP := 12
 		if c.Thorough {
 			maxP = 16
